@@ -18,7 +18,7 @@
    Only [exact lemma] statements followed by Print Assumptions. *)
 From Coq Require Import ZArith List Bool.
 From S3db Require Import Base KeyOrder RowMerge Tree Store KvProto Inst Stmt Mast.
-From S3db.proofs Require Import KeyOrderProofs RowMergeProofs TreeProofs StmtProofs ScanProofs MastProofs MastLevelProofs MastInvProofs MastDelProofs MastCursorProofs MastNeProofs MastCeilProofs MastBackProofs MastExamples.
+From S3db.proofs Require Import KeyOrderProofs RowMergeProofs TreeProofs StmtProofs ScanProofs MastProofs MastLevelProofs MastInvProofs MastDelProofs MastCursorProofs MastNeProofs MastCeilProofs MastBackProofs MastScanTie MastExamples.
 Import ListNotations.
 Open Scope Z_scope.
 
@@ -206,6 +206,16 @@ Theorem C06_single_node_descending_walk {V : Type} (m : mast V) n fuel steps :
   c_walk_bwd steps fuel (c_max fuel (mast_cursor m)) = (rev (mast_flat m), WOk).
 Proof. exact (single_node_descending_walk m n fuel steps). Qed.
 
+(* the tie between the two levels: what the node-level cursor hands to VirtualTable.Next for an
+   ascending scan — Cursor + Min, or Cursor + Ceil(lower bound), then Get / Forward — is exactly the
+   sequence the list-level scan model (tbl_scan, C06_select_is_filter_and_sort) starts from, on every
+   tree that meets the invariant *)
+Theorem C06_ascending_select_over_a_multilevel_tree (bf : Z) (P : sval -> Prop)
+  (m : mast (cval row)) (w : window) steps :
+  MInv2 bf P m -> (forall k, w_min w = Some k -> D k) -> (length (mast_flat m) < steps)%nat ->
+  tbl_scan (mast_flat m) false w = scan_fwd (cursor_sequence m w steps) w (w_gt w).
+Proof. exact (ascending_scan_over_a_multilevel_tree bf P m w steps). Qed.
+
 Theorem C06_the_empty_tree_meets_the_invariant {V : Type} bf P : MInv (V := V) bf P (mast_empty bf).
 Proof. exact (empty_inv bf P). Qed.
 
@@ -248,3 +258,4 @@ Print Assumptions C06_multilevel_ascending_scans_are_the_map_in_key_order.
 Print Assumptions C06_the_empty_tree_meets_the_scan_invariant.
 Print Assumptions C06_multilevel_bounded_scan_starts_at_the_ceiling.
 Print Assumptions C06_single_node_descending_walk.
+Print Assumptions C06_ascending_select_over_a_multilevel_tree.
